@@ -73,6 +73,11 @@ class FakeTens:
         self.purpose = TensorPurpose.LUT if lut else TensorPurpose.FeatureMap
         self.ops = [FakeOp(False)] if cpu else []
         self.consumer_list = []
+        self.size = 0
+        self.mem_area = None
+
+    def storage_size(self):
+        return self.size
 
     def equivalent(self, other):
         return self.eq == other.eq
@@ -97,6 +102,26 @@ def make_graph(ranges, names=None, tens_kw=None):
         g.lrs.append(lr)
         g.ranges[t] = lr
     return g
+
+
+def make_graph_by_requests(ranges, names, requests, tens_kw):
+    """the same graph built by the real LiveRangeGraph.get_or_create_range: requests[i] is the sequence of alignments
+    requested for tensor i; the first requests come in range order, later ones round by round through a clone of the
+    tensor (an equivalent tensor), as the live-range extraction meets a tensor again in another subgraph"""
+    from ethosu.vela.live_range import LiveRangeGraph
+    g = LiveRangeGraph()
+    order = []
+    for rnd in range(max(len(q) for q in requests)):
+        for i, (s, e, sz, _) in enumerate(ranges):
+            if rnd < len(requests[i]):
+                nm = "t%06d" % (names[i] if names else i)
+                t = FakeTens(nm, **(tens_kw[i] if tens_kw else {}))
+                t.size = sz
+                lr = g.get_or_create_range(t, requests[i][rnd])
+                order.append((i, requests[i][rnd]))
+                if rnd == 0:
+                    lr.start_time, lr.end_time, lr.size, lr.name = s, e, sz, nm
+    return g, order
 
 
 def addresses(g):
@@ -211,7 +236,7 @@ class ArchStub:
         return self.size
 
 
-def run_dispatch_impl(tag, align, ranges, names, max_iter, limit, supply=None):
+def run_dispatch_impl(tag, align, ranges, names, max_iter, limit, supply=None, requests=None):
     """tensor_allocation.allocate(sg, arch, mem_area, mem_type_set, tensor_allocator, lr_graph, cpu_tensor_alignment,
     hillclimb_max_iterations) on a prepared LiveRangeGraph: the live-range extraction is replaced by a function that
     returns the prepared graph; ranges whose alignment is the requested one carry a CPU tensor (as the extraction
@@ -220,7 +245,12 @@ def run_dispatch_impl(tag, align, ranges, names, max_iter, limit, supply=None):
     from ethosu.vela.errors import AllocationError
     from ethosu.vela.nn_graph import TensorAllocator
     from ethosu.vela.tensor import MemType
-    g = make_graph(ranges, names, [dict(cpu=(r[3] == align)) for r in ranges])
+    kw = [dict(cpu=(r[3] == align)) for r in ranges]
+    order = None
+    if requests is None:
+        g = make_graph(ranges, names, kw)
+    else:
+        g, order = make_graph_by_requests(ranges, names, requests, kw)
     seen = {}
 
     def fake_extract(sg, mem_area, mem_type_set, **kw):
@@ -248,6 +278,8 @@ def run_dispatch_impl(tag, align, ranges, names, max_iter, limit, supply=None):
     out["addr"] = addresses(g)
     out["stream"] = rec.log
     out["forwarded_alignment"] = seen.get("cpu_tensor_alignment")
+    out["get_alignment"] = [lr.get_alignment() for lr in g.lrs]
+    out["request_order"] = order
     return out
 
 
@@ -663,7 +695,9 @@ def run(tier):
         pk = peak(r)
         mi = rng.choice([0, 1, 7, 100])
         lim = rng.choice([0, pk // 2, pk, pk + 16, 1 << 32, 1 << 32])
-        dcases.append((tag, al, r, rng.sample(range(len(r)), len(r)), mi, lim, None))
+        # several alignment requests per tensor, the strictest first, last or in the middle; r carries the strictest
+        reqs = [rng.choice([[x[3]], [x[3], 16], [16, x[3]], [16, x[3], 16], [x[3], x[3]], [16, 16, x[3]], [x[3], 16, 16]]) for x in r]
+        dcases.append((tag, al, r, rng.sample(range(len(r)), len(r)), mi, lim, None, reqs))
     dbudget = 6 if tier == "quick" else 150
     dimpl = []
     for c in dcases:
@@ -672,7 +706,7 @@ def run(tier):
         dimpl.append(run_dispatch_impl(*c))
     dcases = dcases[:len(dimpl)]
     dkind = {1: "linear", 2: "greedy", 3: "hillclimb"}
-    for (tag, al, r, nm, mi, lim, _), o in zip(dcases, dimpl):
+    for (tag, al, r, nm, mi, lim, _, reqs), o in zip(dcases, dimpl):
         evals += 1
         if len(r) > 1:
             nontrivial += 1
@@ -689,15 +723,22 @@ def run(tier):
             why = oracle(dkind[tag], r, o["addr"], max([a + x[2] for a, x in zip(o["addr"], r)] + [0]), gran=al) if ok_addr else None
             bad(kind, r, (why + "; " if why else "") + "Vela's own verification raised: " + o["guard"], dict(extra, addresses=o["addr"]))
             continue
-        why = oracle(dkind[tag], r, o["addr"], o["total"], gran=al)
+        why = oracle(dkind[tag], r, o["addr"], o["total"], gran=al)       # r[i][3] is the strictest request of range i
+        if why and "not a multiple" in why:
+            why += " (alignments requested for the ranges, in order: %r)" % (reqs[:12],)
+        if not why:
+            for i, q in enumerate(reqs):
+                if o["get_alignment"][i] % max(q) or o["get_alignment"][i] not in q:
+                    why = "LiveRange.get_alignment() of range %d is %r after the requests %r" % (i, o["get_alignment"][i], q)
+                    break
         if not why and o["forwarded_alignment"] != al:
             why = "the live-range extraction was asked for alignment %r, requested %d" % (o["forwarded_alignment"], al)
         if why:
             bad(kind, r, why, dict(extra, addresses=o["addr"], total=o["total"]))
     if okx and dcases:
         mo = models.run("allocate", [[tag, al, 1, mi, lim] + flat_lrs(r, nm) + o["stream"]
-                                      for (tag, al, r, nm, mi, lim, _), o in zip(dcases, dimpl)], exe_name="alloc")
-        for (tag, al, r, nm, mi, lim, _), o, m in zip(dcases, dimpl, mo):
+                                      for (tag, al, r, nm, mi, lim, _, reqs), o in zip(dcases, dimpl)], exe_name="alloc")
+        for (tag, al, r, nm, mi, lim, _, reqs), o, m in zip(dcases, dimpl, mo):
             if o["timeout"] or o["guard"] or o["err"] is not None:
                 continue
             if tag == 2:
@@ -711,6 +752,15 @@ def run(tier):
             if got != want:
                 diffs.append(("allocate", r, {"model": got[:50], "impl": want[:50], "tensor_allocator": dkind[tag],
                                               "cpu_tensor_alignment": al, "hillclimb_max_iterations": mi, "mem_type_size": lim}))
+    if okx and dcases:
+        ra = [c for c, o in zip(dcases, dimpl) if o["request_order"]]
+        mo = models.run("range_alignments", [[v for pair in o["request_order"] for v in pair] for o in dimpl if o["request_order"]],
+                        exe_name="alloc")
+        for c, o, m in zip(ra, [o for o in dimpl if o["request_order"]], mo):
+            evals += 1
+            want = [v for i, a in enumerate(o["get_alignment"]) for v in (i, a)]
+            if m != want:
+                diffs.append(("range_alignments", c[2], {"model": m[:40], "impl": want[:40], "requests": c[7][:20]}))
     if len(dimpl) > 7:
         samples.append({"dispatcher": "tensor_allocation.allocate", "tensor_allocator": dkind[dcases[7][0]],
                         "cpu_tensor_alignment": dcases[7][1], "ranges": dcases[7][2][:8], "addresses": dimpl[7]["addr"][:8],
